@@ -123,8 +123,18 @@ ElPart(e, cx) ==      \* the partition of an agg / window node as a sequence of 
     IF e.pk = "ctx" THEN [i \in DOMAIN cx.part |-> [k |-> "col", id |-> cx.part[i], ty |-> cx.ty[cx.part[i]], fk |-> "e"]]
     ELSE ElSeq(e.part, cx)
 
-HasNestedAggWin(es) ==  \* some elaborated argument already contains an aggregate / window operator
-    \E i \in DOMAIN es : es[i].fk # "e" \/ (es[i].k \in {"agg", "win"})
+RECURSIVE HasAggWinOp(_)
+HasAggWinOp(e) ==       \* the elaborated expression contains an aggregate / window OPERATOR
+    CASE e.k \in {"agg", "win"} -> TRUE
+      [] e.k = "fn" -> \E i \in DOMAIN e.a : HasAggWinOp(e.a[i])
+      [] e.k = "case" -> (\E i \in DOMAIN e.cs : HasAggWinOp(e.cs[i].c) \/ HasAggWinOp(e.cs[i].v))
+                         \/ (\E i \in DOMAIN e.d : HasAggWinOp(e.d[i]))
+      [] e.k = "cast" -> HasAggWinOp(e.e)
+      [] OTHER -> FALSE
+
+(* "at most one window / aggregation function on any path from the root to a leaf": only operators count; *)
+(* a COLUMN that was computed by an aggregate in an earlier verb is an ordinary column                     *)
+HasNestedAggWin(es) == \E i \in DOMAIN es : HasAggWinOp(es[i])
 
 El(e, cx) ==
     CASE e.k = "col" ->
